@@ -371,17 +371,29 @@ class QueryPlanner:
         # split to select from api database
         #     keep only limit and where
         #     the rest goes to outer select
+        # limit can be applied in the integration only if the outer select
+        # doesn't change the set of rows after it (grouping, distinct, offset)
+        limit = query.limit
+        if (
+            query.group_by is not None
+            or query.having is not None
+            or query.distinct
+            or query.offset is not None
+        ):
+            limit = None
+
         query2 = Select(
             targets=query.targets,
             from_table=query.from_table,
             where=query.where,
             order_by=query.order_by,
-            limit=query.limit,
+            limit=limit,
         )
         prev_step = self.plan_integration_select(query2)
 
         # clear limit and where
-        query.limit = None
+        if limit is not None:
+            query.limit = None
         query.where = None
         return self.plan_sub_select(query, prev_step)
 
